@@ -21,6 +21,7 @@ type c09Case struct {
 	Schema  Node     `json:"schema"`
 	Env     Env      `json:"env"`
 	Want    string   `json:"want"`
+	Opt     bool     `json:"opt"` // KeysAreOptionalByDefault on the root and on every type
 	Missing []string `json:"missing"`
 	Used    []string `json:"used"`
 	PredStarRejects bool `json:"pred_star_rejects"`
@@ -92,7 +93,7 @@ func init() {
 				}
 				ok := withTimeout(20*time.Second, func() {
 					pipeSpelling = []string{" | ", "|", "  |  ", " |", "| "}[i%5] // the blanks around the bar of a type shortcut mean nothing
-					s, rr, err := buildSchema(c.Schema, c.Env, false, mesh)
+					s, rr, err := buildSchema(c.Schema, c.Env, c.Opt, mesh)
 					pipeSpelling = " | "
 					res.Schema = rr.Text
 					for _, t := range c.Env.Types {
